@@ -217,7 +217,47 @@ func runC19(c *eng.Ctx) {
 			})
 		}
 	}
-	c.Floor(20)
+	// the instance id that every report carries is random or read back from the id file — nothing that names the host, the
+	// user or the deployment can take its place
+	if fn := c.Fn("server/telemetry.loadOrCreateInstanceID"); fn != nil {
+		n, ok, bad := 0, true, ""
+		for _, r := range eng.Returns(fn) {
+			rv := eng.RetVals(r)
+			if len(rv) != 2 || !eng.NilConst(rv[1]) {
+				continue
+			}
+			n++
+			v := eng.Strip(rv[0])
+			isUUID := eng.Call(0, "server/telemetry.generateUUID")(v)
+			isFile := false
+			if cv, isC := rv[0].(*ssa.Convert); isC {
+				if tc := eng.AsCall(cv.X); tc != nil && eng.RefIn(eng.CalleeRef(&tc.Call), "bytes.TrimSpace", "strings.TrimSpace") && eng.Call(0, "os.ReadFile")(tc.Call.Args[0]) {
+					isFile = true
+				}
+			}
+			if tc := eng.AsCall(rv[0]); tc != nil && eng.RefIn(eng.CalleeRef(&tc.Call), "strings.TrimSpace") {
+				isFile = true
+			}
+			if !isUUID && !isFile {
+				ok, bad = false, eng.Describe(rv[0])
+			}
+		}
+		c.Check(ok && n >= 2, "instance id is random or read back from the id file", p.Pos(fn.Pos()), "every successful return yields generateUUID() or the trimmed contents of the id file", "loadOrCreateInstanceID can return "+bad+" as the instance id: every telemetry report then carries it")
+	}
+	forbidden := []string{"os.Hostname", "os.Getenv", "os.LookupEnv", "os.Environ", "os.Getwd", "os.UserHomeDir", "os.Executable", "os/user.Current", "os/user.Lookup", "os/user.LookupId", "net.Interfaces", "net.InterfaceAddrs", "net.LookupAddr", "net.LookupHost"}
+	badCall := ""
+	for _, fn := range p.Funcs {
+		if fn.Pkg == nil || ir.Short(fn.Pkg.Pkg.Path()) != "server/telemetry" {
+			continue
+		}
+		eng.Instrs(fn, func(in ssa.Instruction) {
+			if ci, isC := in.(ssa.CallInstruction); isC && eng.RefIn(eng.CalleeRef(ci.Common()), forbidden...) {
+				badCall = eng.CalleeRef(ci.Common()) + " in " + ir.FuncKey(fn) + " at " + c.Pos(in)
+			}
+		})
+	}
+	c.Check(badCall == "", "telemetry reads no host, user or environment identity", "-", "no call to os.Hostname / os.Getenv / os/user / net.Interfaces … in package server/telemetry", "package server/telemetry calls "+badCall+": host or deployment identity can reach the report")
+	c.Floor(22)
 
 	// ---- R19.4 layering
 	c.Rule("R19.4", "K10")
